@@ -1,6 +1,10 @@
 package weshnet
 
 import (
+	"context"
+
+	"go.uber.org/zap"
+
 	"berty.tech/weshnet/v2/pkg/protocoltypes"
 )
 
@@ -83,4 +87,67 @@ func VerifC13MsgSource(n int) {
 		verif_assert(verif_bytesEq(got[i].Message, w.plain[k]), "C13.msgsource: a listed message carries its original payload")
 	}
 	verif_reach("C13.msgsource.ok")
+}
+
+func verif_metadataListStream(ctx context.Context) protocoltypes.ProtocolService_GroupMetadataListServer {
+	panic("intrinsic")
+}
+func verif_streamSentCount(s protocoltypes.ProtocolService_GroupMetadataListServer) int { panic("intrinsic") }
+func verif_streamSentAt(s protocoltypes.ProtocolService_GroupMetadataListServer, i int) *protocoltypes.GroupMetadataEvent {
+	panic("intrinsic")
+}
+
+// VerifC13UntilNow: the GroupMetadataList RPC with until_now on an account log of n events, under the symbolic scheduler
+// (DESIGN 4b): the handler, the listing goroutine of MetadataStore.ListEvents and the forwarding goroutine run
+// concurrently. When nothing can move any more the RPC has returned without error and has streamed exactly the store's
+// listing -- every event once, oldest first, or exactly reversed.
+func VerifC13UntilNow(n int) {
+	ctx := verif_background()
+	ss := verifSecretStore("svc")
+	g, _, err := ss.GetGroupForAccount()
+	verif_assume(err == nil)
+	m := verifMetadataStore(ss, g)
+	md, err := ss.GetOwnMemberDeviceForGroup(g)
+	verif_assume(err == nil)
+	gc := &GroupContext{group: g, metadataStore: m, secretStore: ss, ownMemberDevice: md, logger: zap.NewNop()}
+	s := &service{logger: zap.NewNop(), secretStore: ss, openedGroups: map[string]*GroupContext{string(g.PublicKey): gc}, accountGroupCtx: gc}
+	for i := 0; i < n; i++ {
+		var err error
+		if i%2 == 0 {
+			_, err = m.ContactRequestEnable(ctx)
+		} else {
+			_, err = m.ContactRequestDisable(ctx)
+		}
+		verif_assume(err == nil)
+	}
+	canon := verif_storeLog(&m.BaseStore).Values().Slice()
+	verif_assume(len(canon) == n)
+	reverse := verif_anyBool("reverse")
+	req := &protocoltypes.GroupMetadataList_Request{GroupPk: s.accountGroupCtx.group.PublicKey, UntilNow: true, ReverseOrder: reverse}
+	sctx, _ := verif_cancelCtx(ctx)
+	stream := verif_metadataListStream(sctx)
+	returned := false
+	var rerr error
+	verif_go("rpc", func() {
+		rerr = s.GroupMetadataList(req, stream)
+		returned = true
+	})
+	verif_quiesce()
+	verif_assert(returned, "C13.untilnow: the listing RPC returns once the history has been replayed")
+	if !returned {
+		return
+	}
+	verif_assert(rerr == nil, "C13.untilnow: and returns without error")
+	verif_assert(verif_streamSentCount(stream) == n, "C13.untilnow: every event of the history is streamed exactly once")
+	if verif_streamSentCount(stream) != n {
+		return
+	}
+	for i := 0; i < n; i++ {
+		k := i
+		if reverse {
+			k = n - 1 - i
+		}
+		verif_assert(verif_bytesEq(verif_streamSentAt(stream, i).EventContext.Id, canon[k].GetHash().Bytes()), "C13.untilnow: in log order (oldest first, or exactly reversed)")
+	}
+	verif_reach("C13.untilnow.ok")
 }
